@@ -735,6 +735,7 @@ pub struct VerifConnection {
     pub timeout_seconds: i32,
     pub expire_timestamp: u64,
     pub user_data: [u8; NETCODE_USER_DATA_BYTES],
+    pub first_challenge_sequence: u64,
 }
 
 #[cfg(renet_verif)]
@@ -751,6 +752,7 @@ impl NetcodeServer {
             timeout_seconds: c.timeout_seconds,
             expire_timestamp: c.expire_timestamp,
             user_data: c.user_data,
+            first_challenge_sequence: c.first_challenge_sequence,
         }
     }
 
